@@ -241,6 +241,31 @@ def run_overlap(c):
         vs.append(("C18.completes", "overlapping-h2c:never-completes",
                    {"steps": steps}))
         return vs, steps, True
+    refused2 = procs[1].value is False
+    if refused2:
+        # The second move was refused (the cold tier counts the whole of an
+        # in-flight observation as taken, so it may refuse although there
+        # is room; Buffer.run simply retries later).  C18 only demands that
+        # a refused move leaves everything as it was: the first move must
+        # be unaffected and the second observation must still be stored in
+        # the hot tier.
+        st = state(buf)
+        hs, ht, cs, ct = st[2], st[3], st[4], st[5]
+        if steps != math.ceil(s1 / r) and c["gap"] < math.ceil(s1 / r):
+            vs.append(("C18.duration", "overlapping-h2c:refused-second-move-"
+                       "changed-first-move-duration",
+                       {"steps": steps, "expected": math.ceil(s1 / r)}))
+        if list(hs) != ["b"] or list(cs) != ["a"] or ht is not None \
+                or ct is not None or \
+                h.current_capacity != c["hotcap"] - s2 or \
+                cold.current_capacity != c["coldcap"] - s1:
+            vs.append(("C18.refused-without-room",
+                       "overlapping-h2c:refused-move-changed-state",
+                       {"hot": hs, "cold": cs, "hot_transfer": ht,
+                        "cold_transfer": ct,
+                        "hot_free": h.current_capacity,
+                        "cold_free": cold.current_capacity}))
+        return vs, steps, True
     want_last = max(math.ceil(s1 / r), c["gap"] + math.ceil(s2 / r))
     if steps != want_last:
         vs.append(("C18.duration", "overlapping-h2c:took-%s-steps" % (
@@ -272,8 +297,8 @@ def overlap_domain(tier):
     sizes = [(3, 5), (6, 10), (4, 4), (2, 7), (5, 1)]
     rates = [(1, 1), (2, 2), (2, 3), (3, 2), (4, 1)]
     if tier == "thorough":
-        sizes += [(7, 7), (9, 2), (1, 1), (8, 12)]
-        rates += [(1, 4), (5, 5), (3, 3)]
+        sizes = [(a, b) for a in range(1, 13) for b in range(1, 13)]
+        rates = [(a, b) for a in range(1, 6) for b in range(1, 6)]
     for (s1, s2), (hr, cr), gap in itertools.product(sizes, rates,
                                                       (0, 1, 2, 3)):
         yield {"engine": "E2", "overlap": True, "sizes": [s1, s2],
@@ -283,10 +308,13 @@ def overlap_domain(tier):
 
 
 def domain(tier):
-    sizes = range(1, 17) if tier == "thorough" else range(1, 9)
-    rates = range(1, 7) if tier == "thorough" else range(1, 5)
+    sizes = range(1, 25) if tier == "thorough" else range(1, 9)
+    rates = range(1, 9) if tier == "thorough" else range(1, 5)
     hists = [["h2c"], ["c2h"], ["h2c", "c2h"], ["c2h", "h2c"],
              ["h2c", "c2h", "h2c"], ["c2h", "h2c", "c2h"]]
+    if tier == "thorough":
+        hists += [["h2c", "c2h", "h2c", "c2h"], ["c2h", "h2c", "c2h", "h2c"],
+                  ["h2c", "c2h", "h2c", "c2h", "h2c"]]
     for size, hr, cr in itertools.product(sizes, rates, rates):
         for hist in hists:
             for dcap in (size - 1, size, size + 3):
